@@ -115,14 +115,16 @@ class Gen:
                             views=si["views"] + [tag])
         return h
 
-    def array(self, dims, active, depth=None, style="any"):
-        """an Array handle with extents `dims`: a root or a composition of views over a bigger root"""
+    def array(self, dims, active, depth=None, style="any", top=True):
+        """an Array handle with extents `dims`: a root or a composition of views over a bigger root.
+        soft_link() only as the outermost step: subsetting a storage-less ACTIVE array throws invalid_operation
+        (Array(data, storage=0, ...) calls GradientIndex::assert_inactive) — a limitation noted in the report"""
         r = self.r
         depth = r.choice([0, 0, 1, 1, 2, 3]) if depth is None else depth
         rank = len(dims)
         if depth <= 0:
             return self.root(dims, active, style)
-        kinds = ["sub", "sub", "rev", "soft", "link"]
+        kinds = ["sub", "sub", "rev", "link"] + (["soft"] if top else [])
         if rank == 2:
             kinds += ["T", "T", "slice"]
         if rank == 3:
@@ -148,17 +150,17 @@ class Gen:
                 tot *= x
             if tot > 2 * MAXCELLS:
                 return self.root(dims, active, style)
-            src = self.array(sd, active, depth - 1, style)
+            src = self.array(sd, active, depth - 1, style, False)
             return self.derive(src, "vw %(h)d %(src)d " + " ".join(spec), dims, "stride" if k == "sub" else "reversed")
         if k == "T":
-            src = self.array([dims[1], dims[0]], active, depth - 1, style)
+            src = self.array([dims[1], dims[0]], active, depth - 1, style, False)
             return self.derive(src, "vT %(h)d %(src)d", dims, "T")
         if k == "perm":
             p = r.choice([(0, 2, 1), (1, 0, 2), (1, 2, 0), (2, 0, 1), (2, 1, 0)])
             sd = [0, 0, 0]
             for q in range(3):
                 sd[p[q]] = dims[q]
-            src = self.array(sd, active, depth - 1, style)
+            src = self.array(sd, active, depth - 1, style, False)
             return self.derive(src, "vperm %%(h)d %%(src)d %d %d %d" % p, dims, "permute")
         if k == "slice":
             q = r.randint(0, rank)
@@ -169,7 +171,7 @@ class Gen:
                 tot *= x
             if rank + 1 > 3 or tot > 2 * MAXCELLS:
                 return self.root(dims, active, style)
-            src = self.array(sd, active, depth - 1, style)
+            src = self.array(sd, active, depth - 1, style, False)
             spec = ["s0:%d:1" % (d - 1) for d in dims]
             spec.insert(q, "i%d" % r.randrange(m))
             return self.derive(src, "vw %(h)d %(src)d " + " ".join(spec), dims, "slice")
@@ -178,9 +180,9 @@ class Gen:
             n = dims[0] + abs(off)
             if n * n > 2 * MAXCELLS:
                 return self.root(dims, active, style)
-            src = self.array([n, n], active, depth - 1, style)
+            src = self.array([n, n], active, depth - 1, style, False)
             return self.derive(src, "vdiag %%(h)d %%(src)d %d" % off, dims, "diag")
-        src = self.array(dims, active, depth - 1, style)
+        src = self.array(dims, active, depth - 1, style, False)
         return self.derive(src, ("vsoft" if k == "soft" else "vlink") + " %(h)d %(src)d", dims, "soft_link" if k == "soft" else "link")
 
     def operand(self, dims, active=None, avoid=(), style="any", reuse=0.25):
